@@ -233,7 +233,7 @@ func WriteTarArchive(st storage.Storer, w io.Writer, tree *object.Tree, commitHa
 	walker := object.NewTreeWalker(tree, true, nil)
 	defer walker.Close()
 
-	var matchedAny bool
+	matched := make([]bool, len(pathFilter))
 	for {
 		name, entry, err := walker.Next()
 		if err == io.EOF {
@@ -243,10 +243,9 @@ func WriteTarArchive(st storage.Storer, w io.Writer, tree *object.Tree, commitHa
 			return err
 		}
 
-		if len(pathFilter) > 0 && !MatchesPathFilter(name, pathFilter) {
+		if len(pathFilter) > 0 && !markPathFilters(name, pathFilter, matched) {
 			continue
 		}
-		matchedAny = true
 
 		fullName := prefix + name
 
@@ -325,8 +324,8 @@ func WriteTarArchive(st storage.Storer, w io.Writer, tree *object.Tree, commitHa
 		}
 	}
 
-	if len(pathFilter) > 0 && !matchedAny {
-		return fmt.Errorf("%w: '%s'", ErrPathspecNoMatch, strings.Join(pathFilter, " "))
+	if f, ok := unmatchedPathFilter(pathFilter, matched); ok {
+		return fmt.Errorf("%w: '%s'", ErrPathspecNoMatch, f)
 	}
 
 	return tw.Close()
@@ -347,7 +346,7 @@ func WriteZipArchive(st storage.Storer, w io.Writer, tree *object.Tree, commitHa
 	walker := object.NewTreeWalker(tree, true, nil)
 	defer walker.Close()
 
-	var matchedAny bool
+	matched := make([]bool, len(pathFilter))
 	for {
 		name, entry, err := walker.Next()
 		if err == io.EOF {
@@ -357,10 +356,9 @@ func WriteZipArchive(st storage.Storer, w io.Writer, tree *object.Tree, commitHa
 			return err
 		}
 
-		if len(pathFilter) > 0 && !MatchesPathFilter(name, pathFilter) {
+		if len(pathFilter) > 0 && !markPathFilters(name, pathFilter, matched) {
 			continue
 		}
-		matchedAny = true
 
 		if entry.Mode == filemode.Dir || entry.Mode == filemode.Submodule {
 			if _, err := zw.CreateHeader(zipDirHeader(prefix+name+"/", modTime)); err != nil {
@@ -412,8 +410,8 @@ func WriteZipArchive(st storage.Storer, w io.Writer, tree *object.Tree, commitHa
 		}
 	}
 
-	if len(pathFilter) > 0 && !matchedAny {
-		return fmt.Errorf("pathspec '%s' did not match any files", strings.Join(pathFilter, " "))
+	if f, ok := unmatchedPathFilter(pathFilter, matched); ok {
+		return fmt.Errorf("pathspec '%s' did not match any files", f)
 	}
 
 	// Store commit ID as ZIP file comment if available.
@@ -461,6 +459,38 @@ func MatchesPathFilter(name string, filters []string) bool {
 		}
 	}
 	return false
+}
+
+// markPathFilters reports whether name is selected by the filters, like
+// MatchesPathFilter, and records in matched which filters selected it. A
+// directory that only leads to a filter's path selects nothing by itself.
+func markPathFilters(name string, filters []string, matched []bool) bool {
+	selected := false
+	for i, f := range filters {
+		if name == f || strings.HasPrefix(name, f+"/") {
+			matched[i], selected = true, true
+			continue
+		}
+		if ok, _ := path.Match(f, name); ok {
+			matched[i], selected = true, true
+			continue
+		}
+		if strings.HasPrefix(f, name+"/") {
+			selected = true
+		}
+	}
+	return selected
+}
+
+// unmatchedPathFilter returns the first filter that selected nothing: git
+// archive refuses a request any of whose pathspecs matches no file.
+func unmatchedPathFilter(filters []string, matched []bool) (string, bool) {
+	for i, f := range filters {
+		if !matched[i] {
+			return f, true
+		}
+	}
+	return "", false
 }
 
 // GetTarCommitID extracts the commit ID from a git-generated tar archive.
